@@ -87,6 +87,18 @@ PairDocs ==
      pa \in {x \in Paths : x.p = "/a/{x}/b/{y}"}, b3 \in {"ref:Thing", "ref:Err"}}
 
 -----------------------------------------------------------------------------
+(* Mode "ext": chains of object types that extend one another (XSD extension), the middle type with fields of  *)
+(* its own or with none                                                                                           *)
+ObjB(n, fs, b) == [name |-> n, kind |-> "object", fields |-> fs, base |-> b, vals |-> <<>>]
+ExtDocs ==
+  {<<Obj("Party", <<F("id", "int", FALSE, TRUE, TRUE), F("name", "string", FALSE, r1, FALSE)>>),
+     ObjB("Mid", mid, "Party"),
+     ObjB("Leaf", <<F("tier", "string", a, r2, FALSE)>>, top)>> :
+       r1 \in BOOLEAN, r2 \in BOOLEAN, a \in BOOLEAN, top \in {"Mid", "Party"},
+       mid \in {<<>>, <<F("tag", "string", FALSE, FALSE, FALSE)>>, <<F("tag", "string", FALSE, TRUE, FALSE), F("n", "int", TRUE, FALSE, FALSE)>>}}
+NextExt == step = 0 /\ \E d \in ExtDocs : types' = d /\ eps' = <<>> /\ step' = 1
+
+-----------------------------------------------------------------------------
 (* Mode "random"                                                           *)
 (* RandomElement is re-evaluated at every use of a LET name, so every       *)
 (* random draw is bound once by ranging over a singleton set.               *)
@@ -148,13 +160,14 @@ AddEp == /\ step = 1 /\ Len(eps) < MaxEps
               eps' = Append(eps, RandEp(c[1], c[2], ObjNames(types)))
          /\ UNCHANGED <<types, step>>
 
-Done == /\ \/ Mode \in {"field", "ep", "pair"} /\ step = 1
+Done == /\ \/ Mode \in {"field", "ep", "pair", "ext"} /\ step = 1
            \/ Mode = "random" /\ step = 1
         /\ Emit /\ step' = 2 /\ UNCHANGED <<types, eps>>
 
 Next == \/ Mode = "field" /\ NextField
         \/ Mode = "ep" /\ NextEp
         \/ Mode = "pair" /\ NextPair
+        \/ Mode = "ext" /\ NextExt
         \/ Mode = "random" /\ (AddType \/ TypesDone \/ AddEp)
         \/ Done
 Spec == Init /\ [][Next]_gvars
